@@ -372,6 +372,22 @@ def main(tier):
             for (i1, k1), (i2, k2) in itertools.combinations(single, 2):
                 if i1 != i2:
                     cases.append((ti, {i1: k1, i2: k2}))
+    # bulk trees: many objects in one file, every choice point of one kind deviating the SAME way (24 one-line objects, 24 comment-laden ones ...): whatever a
+    # parser accumulates per entry - a depth counter, a buffer, a line count - gets the chance to run over
+    BULK = [[('o%02d' % k, 'o', [('a', 's', 'x'), ('b', 's', 'y')]) for k in range(24)],
+            [('o', 'o', [('p%02d' % k, 'o', [('q', 's', 'v%d' % k)]) for k in range(20)])],
+            [('l%02d' % k, 'l', ('a', 'b')) for k in range(24)] + [('s%02d' % k, 's', 'v') for k in range(24)]]
+    for t in BULK:
+        T.append(t)
+        ti = len(T) - 1
+        _, pts = render(t, {})
+        cases.append((ti, {}))
+        for lab in sorted({l for l, n in pts}):
+            nmax = max(n for l, n in pts if l == lab)
+            for k in range(1, nmax):
+                dev = {i: k for i, (l, n) in enumerate(pts) if l == lab and k < n}
+                if dev:
+                    cases.append((ti, dev))
     batches, cur, cur2 = [], [], []
     texts = {}
     for cid, (ti, dev) in enumerate(cases):
@@ -406,7 +422,7 @@ def main(tier):
                 ti, dev = cases[cid]
                 text, pts = render(T[ti], dev)
                 nfiles += 1
-                dev_hist[len(dev)] += 1
+                dev_hist[min(len(dev), 2)] += 1
                 distinct.add(text)
                 want = sem(T[ti])
                 if status == 'ok' and rc == 0 and flat == want:
